@@ -664,6 +664,9 @@ pub trait Robdd<'a>: BddBuilder<'a> {
     fn condition_model_(&'a self, p: BddPtr<'a>, m: &PartialModel) -> BddPtr<'a>;
     fn smooth_(&'a self, p: BddPtr<'a>, n: usize) -> BddPtr<'a>;
 }
+thread_local! {
+    static NEWVAR_CALLS: std::cell::Cell<u64> = const { std::cell::Cell::new(0) };
+}
 macro_rules! impl_robdd {
     ($cache:ident) => {
         impl<'a> Robdd<'a> for RobddBuilder<'a, $cache<BddPtr<'a>>> {
@@ -671,7 +674,16 @@ macro_rules! impl_robdd {
                 self.order()
             }
             fn new_var_(&'a self, pol: bool) -> (VarLabel, BddPtr<'a>) {
-                self.new_var(pol)
+                // the three run-time entry points, in turn
+                let k = NEWVAR_CALLS.with(|c| {
+                    c.set(c.get() + 1);
+                    c.get()
+                });
+                match (k % 3, pol) {
+                    (0, _) => self.new_var(pol),
+                    (_, true) => self.new_pos(),
+                    (_, false) => self.new_neg(),
+                }
             }
             fn num_vars_(&self) -> usize {
                 self.num_vars()
@@ -701,18 +713,25 @@ macro_rules! with_robdd {
         let vo = rsdd::repr::VarOrder::new(&order_lbls);
         match $cfg.cache {
             $crate::bddhist::CacheKind::All => {
-                let builder = rsdd::builder::bdd::RobddBuilder::<
-                    rsdd::builder::cache::AllIteTable<rsdd::repr::BddPtr>,
-                >::new(vo);
+                let identity = $cfg.order.iter().enumerate().all(|(i, x)| i == *x);
+                let builder = if identity && $cfg.order.len() % 2 == 0 {
+                    // the library's own constructor for the default order
+                    rsdd::builder::bdd::RobddBuilder::<rsdd::builder::cache::AllIteTable<rsdd::repr::BddPtr>>::new_with_linear_order($cfg.order.len())
+                } else {
+                    rsdd::builder::bdd::RobddBuilder::<rsdd::builder::cache::AllIteTable<rsdd::repr::BddPtr>>::new(vo)
+                };
                 crate::caps::set_unique(None);
                 crate::caps::set_lru_bits(None);
                 let $b = &builder;
                 $body
             }
             $crate::bddhist::CacheKind::Lru => {
-                let builder = rsdd::builder::bdd::RobddBuilder::<
-                    rsdd::builder::cache::LruIteTable<rsdd::repr::BddPtr>,
-                >::new(vo);
+                let identity = $cfg.order.iter().enumerate().all(|(i, x)| i == *x);
+                let builder = if identity && $cfg.order.len() % 2 == 0 {
+                    rsdd::builder::bdd::RobddBuilder::<rsdd::builder::cache::LruIteTable<rsdd::repr::BddPtr>>::new_with_linear_order($cfg.order.len())
+                } else {
+                    rsdd::builder::bdd::RobddBuilder::<rsdd::builder::cache::LruIteTable<rsdd::repr::BddPtr>>::new(vo)
+                };
                 crate::caps::set_unique(None);
                 crate::caps::set_lru_bits(None);
                 let $b = &builder;
